@@ -417,6 +417,30 @@ def _inline_trivial_helpers(tree: ast.Module) -> None:
                 Inline({}).visit(fn)
 
 
+class _SpliceCalls(ast.NodeTransformer):
+    """`f(*(a, b), **{"k": v})` reads `f(a, b, k=v)` (left behind when a helper with *args / **kwargs is read at its call site)."""
+
+    def visit_Call(self, node):
+        self.generic_visit(node)
+        args = []
+        for a in node.args:
+            if isinstance(a, ast.Starred) and isinstance(a.value, (ast.Tuple, ast.List)) and not any(isinstance(x, ast.Starred) for x in a.value.elts):
+                args.extend(a.value.elts)
+            else:
+                args.append(a)
+        node.args = args
+        new_kw = []
+        for k in node.keywords:
+            if k.arg is None and isinstance(k.value, ast.Dict) and all(
+                    isinstance(x, ast.Constant) and isinstance(x.value, str) and x.value.isidentifier() for x in k.value.keys):
+                for kk, vv in zip(k.value.keys, k.value.values):
+                    new_kw.append(ast.keyword(arg=kk.value, value=vv))
+            else:
+                new_kw.append(k)
+        node.keywords = new_kw
+        return node
+
+
 def canon_compare(tree: ast.AST, modname: str = "") -> ast.AST:
     tree = _CanonCompare().visit(tree)
     _inline_return_temps(tree)
@@ -428,6 +452,7 @@ def canon_compare(tree: ast.AST, modname: str = "") -> ast.AST:
         if expand_module(tree, modname):
             ast.fix_missing_locations(tree)
             _unroll_const_loops(tree)          # a loop over constant names whose body became visible by the expansion
+            _SpliceCalls().visit(tree)
             _inline_return_temps(tree)
     return ast.fix_missing_locations(tree)
 
